@@ -92,9 +92,9 @@ theorem NFr.setNode (s : NetState) (f : Node → Node) (h : s.cur < s.nodes.leng
 
 /-- the hypothesis on the session the call starts in: an open system, or a closed one in which the
     call runs as a node that is on the call stack and distinct nodes drive distinct radios -/
-def Quiet (s : NetState) : Prop := s.closed = false ∨ (NetK.Good s ∧ NetK.Distinct s)
+def Quiet7 (s : NetState) : Prop := s.closed = false ∨ (NetK.Good s ∧ NetK.Distinct s)
 
-theorem Quiet.nfr {s s' : NetState} (h : Quiet s) (hf : NFr s s') : Quiet s' := by
+theorem Quiet7.nfr {s s' : NetState} (h : Quiet7 s) (hf : NFr s s') : Quiet7 s' := by
   rcases h with h | ⟨g, d⟩
   · exact Or.inl (hf.closed.trans h)
   · refine Or.inr ⟨⟨by rw [hf.cur, hf.active]; exact g.onStack, by rw [hf.cur, hf.len]; exact g.exists_⟩, ?_⟩
@@ -103,7 +103,7 @@ theorem Quiet.nfr {s s' : NetState} (h : Quiet s) (hf : NFr s s') : Quiet s' := 
     exact d a b (by rw [← hf.len]; exact ha) (by rw [← hf.len]; exact hb) hab
 
 /-- in a closed system the hypothesis is the second alternative -/
-theorem Quiet.closed {s : NetState} (h : Quiet s) (hc : s.closed = true) : NetK.Good s ∧ NetK.Distinct s := by
+theorem Quiet7.closed {s : NetState} (h : Quiet7 s) (hc : s.closed = true) : NetK.Good s ∧ NetK.Distinct s := by
   rcases h with h | h
   · rw [h] at hc; cases hc
   · exact h
